@@ -376,8 +376,9 @@ Lemma nnb_in_dim_aux : True. Proof. exact I. Qed.
 Lemma in_boxb_in_dim R : in_boxb ge R = true -> in_dim ge R.
 Proof.
   unfold in_boxb, in_boxw, nmaxv, in_dim. destruct (g_G ge) as [[[[[g11 g22] g33] g12] g13] g23].
+  destruct (g_wover ge) as [[w0 w1] w2].
   destruct R as [[x y] z]. cbn [snd]. destruct (Nat.leb_spec 3 (g_dim ge)) as [L|L]; [left; exact L|].
-  intro H. right. lia.
+  destruct (g_over ge); intro H; right; lia.
 Qed.
 
 (* ---- soundness: everything enumerated is a clique of the right size ---- *)
@@ -735,15 +736,15 @@ Proof.
     unfold vadd, vscale. apply vec_ext; lia.
 Qed.
 
-Lemma keys_from_shift k T N c : forall l i,
-  keys_from k i N (vadd c (vscale N T)) (map (shift T) l) = keys_from k i N c l.
+Lemma keys_from_shift tt k T N c : forall l i,
+  keys_from tt k i N (vadd c (vscale N T)) (map (shift T) l) = keys_from tt k i N c l.
 Proof.
   induction l as [|p l IH]; intro i; cbn [map keys_from]; [reflexivity|]. rewrite IH. f_equal. f_equal.
   unfold shift. cbn [p_site p_R]. destruct (p_R p) as [[x y] z], T as [[t0 t1] t2], c as [[c0 c1] c2].
   unfold vsub, vscale, vadd. apply vec_ext; ring.
 Qed.
 
-Lemma ckeys_shift k T l : ckeys k (map (shift T) l) = ckeys k l.
+Lemma ckeys_shift tt k T l : ckeys tt k (map (shift T) l) = ckeys tt k l.
 Proof. unfold ckeys. rewrite map_length, vsum_shift. apply keys_from_shift. Qed.
 
 Lemma sinsert_perm p l : Permutation (sinsert p l) (p :: l).
@@ -769,7 +770,7 @@ Lemma ssort_shift T l : ssort (map (shift T) l) = map (shift T) (ssort l).
 Proof. induction l as [|p l IH]; cbn [ssort map]; [reflexivity|]. rewrite IH. apply sinsert_shift. Qed.
 
 (* Cluster.__init__ gives literally the same object for a translated site list *)
-Theorem Cluster_translate k T l : Cluster k (map (shift T) l) = Cluster k l.
+Theorem Cluster_translate tt k T l : Cluster tt k (map (shift T) l) = Cluster tt k l.
 Proof.
   unfold Cluster, mk_sites. f_equal. rewrite firstn_map, skipn_map, ssort_shift, <- map_app.
   destruct (firstn (nspecial k) l ++ ssort (skipn (nspecial k) l)) as [|h t]; [reflexivity|].
@@ -805,51 +806,51 @@ Proof.
 Qed.
 
 (* the transition pair of a constructed cluster is recognised by the cluster itself *)
-Lemma istransition_self k l a b t : mk_sites k l = a :: b :: t -> istransition (Cluster k l) a b = true.
+Lemma istransition_self tt k l a b t : mk_sites k l = a :: b :: t -> istransition (Cluster tt k l) a b = true.
 Proof.
   intro E. unfold istransition, Cluster. cbn [c_sites c_kind]. rewrite E.
   pose proof (mk_sites_head k l a (b :: t) E) as Hz. rewrite !(shift_neg_origin a) by exact Hz.
   rewrite !peqb_refl. reflexivity.
 Qed.
 
-Theorem ceq_refl k l : (nspecial k <= length l)%nat -> ceq (Cluster k l) (Cluster k l) = true.
+Theorem ceq_refl tt k l : (nspecial k <= length l)%nat -> ceq (Cluster tt k l) (Cluster tt k l) = true.
 Proof.
-  intro Hl. unfold ceq. cbn [c_kind c_sites Cluster].
+  intro Hl. unfold ceq, ckeys_of. cbn [c_kind c_sites c_tt Cluster].
   assert (Ek : ckind_eqb k k = true) by (destruct k; reflexivity). rewrite Ek, Nat.eqb_refl.
   rewrite !key_subset_incl by (intros x Hx; exact Hx). cbn [andb].
   destruct (is_ts k) eqn:Ets; [|reflexivity].
   assert (H2 : (2 <= length (mk_sites k l))%nat) by (rewrite mk_sites_length; destruct k; cbn [nspecial] in Hl; try discriminate; lia).
   remember (mk_sites k l) as ms eqn:E. destruct ms as [|a [|b t]]; cbn [length] in H2; try lia.
-  symmetry in E. exact (istransition_self k l a b t E).
+  symmetry in E. exact (istransition_self tt k l a b t E).
 Qed.
 
-Theorem Cluster_eq_translate k T l : (nspecial k <= length l)%nat -> ceq (Cluster k l) (Cluster k (map (shift T) l)) = true.
+Theorem Cluster_eq_translate tt k T l : (nspecial k <= length l)%nat -> ceq (Cluster tt k l) (Cluster tt k (map (shift T) l)) = true.
 Proof. intro H. rewrite Cluster_translate. apply ceq_refl. exact H. Qed.
 
 (* ---- reordering of the non-special sites ---- *)
-Lemma tag_zero k i : (nspecial k <= i)%nat -> tag k i = O.
+Lemma tag_zero tt k i : (nspecial k <= i)%nat -> tag tt k i = O.
 Proof. destruct k; cbn [nspecial tag]; intro H; try reflexivity; destruct i as [|[|i]]; try reflexivity; lia. Qed.
 
-Lemma keys_from_app k N c l1 : forall i l2,
-  keys_from k i N c (l1 ++ l2) = keys_from k i N c l1 ++ keys_from k (i + length l1) N c l2.
+Lemma keys_from_app tt k N c l1 : forall i l2,
+  keys_from tt k i N c (l1 ++ l2) = keys_from tt k i N c l1 ++ keys_from tt k (i + length l1) N c l2.
 Proof.
   induction l1 as [|p l1 IH]; intros i l2; cbn [app keys_from length].
   - rewrite Nat.add_0_r. reflexivity.
   - rewrite IH. rewrite <- Nat.add_succ_comm. reflexivity.
 Qed.
 
-Lemma keys_from_plain k N c : forall l i, (nspecial k <= i)%nat ->
-  keys_from k i N c l = map (fun p => (O, p_site p, vsub (vscale N (p_R p)) c)) l.
+Lemma keys_from_plain tt k N c : forall l i, (nspecial k <= i)%nat ->
+  keys_from tt k i N c l = map (fun p => (O, p_site p, vsub (vscale N (p_R p)) c)) l.
 Proof.
   induction l as [|p l IH]; intros i Hi; cbn [keys_from map]; [reflexivity|].
-  rewrite tag_zero by exact Hi. rewrite IH by lia. reflexivity.
+  rewrite (tag_zero tt) by exact Hi. rewrite IH by lia. reflexivity.
 Qed.
 
-Lemma ckeys_perm k sp r r' : length sp = nspecial k -> Permutation r r' ->
-  Permutation (ckeys k (sp ++ r)) (ckeys k (sp ++ r')).
+Lemma ckeys_perm tt k sp r r' : length sp = nspecial k -> Permutation r r' ->
+  Permutation (ckeys tt k (sp ++ r)) (ckeys tt k (sp ++ r')).
 Proof.
   intros Hs P. unfold ckeys. rewrite !keys_from_app. cbn [Nat.add].
-  rewrite !(keys_from_plain k _ _ _ (length sp)) by lia.
+  rewrite !(keys_from_plain tt k _ _ _ (length sp)) by lia.
   assert (EN : length (sp ++ r) = length (sp ++ r')) by (rewrite !app_length, (Permutation_length P); reflexivity).
   assert (EC : vsum (map p_R (sp ++ r)) = vsum (map p_R (sp ++ r')))
     by (apply vsum_perm, Permutation_map, Permutation_app_head; exact P).
@@ -864,8 +865,8 @@ Proof.
   destruct (sp ++ ssort r) as [|h t]; [exists vzero; reflexivity | exists (vneg (p_R h)); reflexivity].
 Qed.
 
-Lemma ckeys_mk_perm k sp r r' : length sp = nspecial k -> Permutation r r' ->
-  Permutation (ckeys k (mk_sites k (sp ++ r))) (ckeys k (mk_sites k (sp ++ r'))).
+Lemma ckeys_mk_perm tt k sp r r' : length sp = nspecial k -> Permutation r r' ->
+  Permutation (ckeys tt k (mk_sites k (sp ++ r))) (ckeys tt k (mk_sites k (sp ++ r'))).
 Proof.
   intros Hs P. destruct (mk_sites_split k sp r Hs) as [T ->], (mk_sites_split k sp r' Hs) as [T' ->].
   rewrite !ckeys_shift. apply ckeys_perm; [exact Hs|].
@@ -880,20 +881,20 @@ Proof.
   eexists _, _, _, _. split; reflexivity.
 Qed.
 
-Theorem Cluster_eq_reorder k sp r r' :
-  length sp = nspecial k -> Permutation r r' -> ceq (Cluster k (sp ++ r)) (Cluster k (sp ++ r')) = true.
+Theorem Cluster_eq_reorder tt k sp r r' :
+  length sp = nspecial k -> Permutation r r' -> ceq (Cluster tt k (sp ++ r)) (Cluster tt k (sp ++ r')) = true.
 Proof.
-  intros Hs P. unfold ceq. cbn [c_kind c_sites Cluster].
+  intros Hs P. unfold ceq, ckeys_of. cbn [c_kind c_sites c_tt Cluster].
   assert (Ek : ckind_eqb k k = true) by (destruct k; reflexivity). rewrite Ek.
   rewrite !mk_sites_length, !app_length, (Permutation_length P), Nat.eqb_refl.
-  pose proof (ckeys_mk_perm k sp r r' Hs P) as PK.
+  pose proof (ckeys_mk_perm tt k sp r r' Hs P) as PK.
   rewrite (key_subset_incl _ _ (fun x Hx => Permutation_in x PK Hx)).
   rewrite (key_subset_incl _ _ (fun x Hx => Permutation_in x (Permutation_sym PK) Hx)). cbn [andb].
   destruct (is_ts k) eqn:Ets; [|reflexivity].
   assert (Hk : nspecial k = 2%nat) by (destruct k; try discriminate; reflexivity).
   destruct sp as [|a [|b [|c sp]]]; cbn [length] in Hs; try lia. cbn [app].
   destruct (mk_sites_special_ts k a b r r' Hk P) as (a' & b' & t & t' & E1 & E2). rewrite E2.
-  apply (istransition_self k (a :: b :: r) a' b' t E1).
+  apply (istransition_self tt k (a :: b :: r) a' b' t E1).
 Qed.
 
 Section HashProofs.
@@ -913,13 +914,13 @@ Proof.
   - rewrite IH1. apply IH2.
 Qed.
 
-Theorem Cluster_hash_translate k T l : chash A op e H (Cluster k (map (shift T) l)) = chash A op e H (Cluster k l).
+Theorem Cluster_hash_translate tt k T l : chash A op e H (Cluster tt k (map (shift T) l)) = chash A op e H (Cluster tt k l).
 Proof. rewrite Cluster_translate. reflexivity. Qed.
 
-Theorem Cluster_hash_reorder k sp r r' :
+Theorem Cluster_hash_reorder tt k sp r r' :
   length sp = nspecial k -> Permutation r r' ->
-  chash A op e H (Cluster k (sp ++ r)) = chash A op e H (Cluster k (sp ++ r')).
-Proof. intros Hs P. unfold chash. cbn [c_kind c_sites Cluster]. apply fold_hash_perm. apply ckeys_mk_perm; assumption. Qed.
+  chash A op e H (Cluster tt k (sp ++ r)) = chash A op e H (Cluster tt k (sp ++ r')).
+Proof. intros Hs P. unfold chash, ckeys_of. cbn [c_kind c_sites c_tt Cluster]. apply fold_hash_perm. apply ckeys_mk_perm; assumption. Qed.
 End HashProofs.
 
 (* ================================================================== refutation and non-vacuity *)
@@ -929,7 +930,7 @@ End HashProofs.
    model of makeclusters (like the implementation) does not list it. *)
 Module Witness.
 Definition ge : geom :=
-  mkGeom 2 (2, 2, 2, -1, 0, 0) 2 8 [(3, 2, 0); (5, 6, 0)] [O; O] [] 6754801 160000.
+  mkGeom 2 (2, 2, 2, -1, 0, 0) 2 8 [(3, 2, 0); (5, 6, 0)] [O; O] [] 6754801 160000 false (0, 0, 0).
 Definition cl : clus := [mkP 0 (0, 0, 0); mkP 1 (-4, -8, 0)].
 
 Lemma witness_clique : clique ge cl.
@@ -957,7 +958,7 @@ Qed.
 (* non-vacuity: square lattice, one atom, cutoff 3/2: the box is certified, there are two pair
    classes per order ... and triangles exist *)
 Module Example.
-Definition ge : geom := mkGeom 2 (1, 1, 1, 0, 0, 0) 1 1 [(0, 0, 0)] [O] [] 9 4.
+Definition ge : geom := mkGeom 2 (1, 1, 1, 0, 0, 0) 1 1 [(0, 0, 0)] [O] [] 9 4 false (0, 0, 0).
 Definition certs : list rcert :=
   [mkCert 1 1 [(1, (0, 1, 0)); (1, (0, 0, 1))] 1; mkCert 1 1 [(1, (1, 0, 0)); (1, (0, 0, 1))] 1;
    mkCert 1 1 [(1, (1, 0, 0)); (1, (0, 1, 0))] 1].
@@ -976,8 +977,19 @@ Example ex_sym : gop_okb ge rot4 = true /\
 Proof. vm_compute. split; reflexivity. Qed.
 (* the value type: a vacancy cluster, reordered and translated, is equal; a different one is not *)
 Example ex_value :
-  ceq (Cluster Vac [mkP 0 (0,0,0); mkP 0 (1,0,0); mkP 0 (0,1,0)]) (Cluster Vac [mkP 0 (3,3,0); mkP 0 (3,4,0); mkP 0 (4,3,0)]) = true /\
-  ceq (Cluster Vac [mkP 0 (0,0,0); mkP 0 (1,0,0); mkP 0 (0,1,0)]) (Cluster Vac [mkP 0 (1,0,0); mkP 0 (0,0,0); mkP 0 (0,1,0)]) = false /\
-  ceq (Cluster TS [mkP 0 (0,0,0); mkP 0 (1,0,0); mkP 0 (0,1,0)]) (Cluster TS [mkP 0 (1,0,0); mkP 0 (0,0,0); mkP 0 (0,1,0)]) = true.
+  ceq (Cluster false Vac [mkP 0 (0,0,0); mkP 0 (1,0,0); mkP 0 (0,1,0)]) (Cluster false Vac [mkP 0 (3,3,0); mkP 0 (3,4,0); mkP 0 (4,3,0)]) = true /\
+  ceq (Cluster false Vac [mkP 0 (0,0,0); mkP 0 (1,0,0); mkP 0 (0,1,0)]) (Cluster false Vac [mkP 0 (1,0,0); mkP 0 (0,0,0); mkP 0 (0,1,0)]) = false /\
+  ceq (Cluster false TS [mkP 0 (0,0,0); mkP 0 (1,0,0); mkP 0 (0,1,0)]) (Cluster false TS [mkP 0 (1,0,0); mkP 0 (0,0,0); mkP 0 (0,1,0)]) = true.
 Proof. vm_compute. repeat split; reflexivity. Qed.
 End Example.
+
+(* Cluster.__eq__ of transition-state clusters compares the pair only up to its own translation:
+   (0 -> 1 | 2) and (1 -> 2 | 0) on a line are equal for the code, although no translation maps
+   one onto the other with the pair on the pair.  Tagging the pair (tt = true) separates them. *)
+Theorem ts_identity_refuted :
+  exists a b : clus, canon_ts a <> canon_ts b /\ ceq (Cluster false TS a) (Cluster false TS b) = true
+                     /\ ceq (Cluster true TS a) (Cluster true TS b) = false.
+Proof.
+  exists [mkP 0 (0, 0, 0); mkP 0 (1, 0, 0); mkP 0 (2, 0, 0)], [mkP 0 (1, 0, 0); mkP 0 (2, 0, 0); mkP 0 (0, 0, 0)].
+  split; [vm_compute; discriminate | split; vm_compute; reflexivity].
+Qed.
